@@ -31,9 +31,13 @@ type Result struct {
 	NumSites int      `json:"num_sites"`
 	Flagged  int      `json:"flagged_sites"`
 	UsesSync bool     `json:"uses_sync"`
-	// Unowned lists constructs the simulator does not own (go statements,
-	// channels, select, clocks, OS or network access inside library files).
+	// Unowned lists constructs the simulator cannot schedule (the library's own
+	// goroutines, channel operations, select): they force the degraded mode.
 	Unowned []string `json:"unowned,omitempty"`
+	// Notes lists imports through which the library could observe something
+	// outside its arguments (clock, OS, network, random numbers). They do not stop
+	// the simulation; if such a value reaches a result, O4/O5 report it.
+	Notes []string `json:"notes,omitempty"`
 }
 
 const (
@@ -162,7 +166,7 @@ func Instrument(root string, plain bool) (*Result, error) {
 		for _, im := range af.Imports {
 			path, _ := strconv.Unquote(im.Path.Value)
 			if unownedImports[path] {
-				res.Unowned = append(res.Unowned, fmt.Sprintf("%s: import %q", f, path))
+				res.Notes = append(res.Notes, fmt.Sprintf("%s: import %q", f, path))
 			}
 			if path == "sync" {
 				res.UsesSync = true
